@@ -56,10 +56,37 @@ type gm struct {
 	refHist map[string]map[string]map[string]map[string]bool
 	dsIDs   map[uint32]string // internal dataset ids ever handed out -> owner
 	deadIDs []uint32          // internal ids of deleted datasets
+	tokens  map[string]int    // job-token objects stored (crash rig)
+	maxBatch int              // cap on generated batch size (0 = 14)
 }
 
 func newGM(t *rapid.T, names []string, gen kit.GenCfg) *gm {
 	return newGMf(t, t, names, gen)
+}
+
+// poolPrefixes returns the store prefixes a fresh hub assigns to kit.PoolNS
+// (deterministic; learnt once per process from a throw-away hub).
+var poolPrefixesOnce []string
+
+func poolPrefixes() []string {
+	if poolPrefixesOnce == nil {
+		h := kit.NewHub(kit.HubOpts{})
+		poolPrefixesOnce = append([]string{}, h.P...)
+		h.Close()
+	}
+	return poolPrefixesOnce
+}
+
+// newModelGM builds a machine without a hub: ops are generated and applied to
+// the reference model only (the crash rig executes them in child processes).
+func newModelGM(t *rapid.T, f fataler, names []string, gen kit.GenCfg) *gm {
+	g := &gm{t: t, f: f, m: kit.NewModel(), names: names, gen: gen, cls: map[string]bool{}}
+	p := poolPrefixes()
+	g.pool = (&kit.Hub{P: p}).Pool()
+	for _, n := range names {
+		g.m.Create(n)
+	}
+	return g
 }
 
 func newGMf(t *rapid.T, f fataler, names []string, gen kit.GenCfg) *gm {
@@ -80,7 +107,11 @@ func newGMf(t *rapid.T, f fataler, names []string, gen kit.GenCfg) *gm {
 	return g
 }
 
-func (g *gm) close() { g.h.Close() }
+func (g *gm) close() {
+	if g.h != nil {
+		g.h.Close()
+	}
+}
 
 // live returns the names of the datasets that currently exist (model).
 func (g *gm) live() []string { return g.m.Names() }
@@ -97,6 +128,9 @@ func (g *gm) histJSON() string {
 // fail reports a violation with the full history in a machine-readable block.
 func (g *gm) fail(format string, a ...any) {
 	msg := fmt.Sprintf(format, a...)
+	if _, soft := g.f.(softFataler); soft {
+		g.f.Fatalf("%s", msg)
+	}
 	g.f.Fatalf("%s\nVERIF-CASE-BEGIN\n%s\nVERIF-CASE-END", msg, g.histJSON())
 }
 
@@ -107,17 +141,82 @@ func (g *gm) record(op Op) {
 
 // ---- write ops -------------------------------------------------------------
 
+// execOp applies one write/management op to a hub (implementation only).
+func execOp(h *WHub, op Op) error {
+	switch op.K {
+	case "batch":
+		if op.Via == "http" {
+			if code, body := h.PostBatch(op.DS, op.Ents, nil); code != 200 {
+				return fmt.Errorf("POST batch rejected: %d %s", code, body)
+			}
+			return nil
+		}
+		if err := h.StoreBatch(op.DS, op.Ents, op.Via); err != nil {
+			return fmt.Errorf("StoreEntities failed: %w", err)
+		}
+	case "txn":
+		if op.Via == "http" {
+			if code, resp := h.Do("POST", "/transactions", txnPayload(h.P, op.Parts), nil); code != 200 {
+				return fmt.Errorf("POST /transactions rejected: %d %s", code, resp)
+			}
+			return nil
+		}
+		if err := h.Txn(op.Parts, op.Ctx); err != nil {
+			return fmt.Errorf("ExecuteTransaction failed: %w", err)
+		}
+	case "create":
+		if op.Via == "http" {
+			if code, body := h.Do("POST", "/datasets/"+op.Name, "", nil); code != 200 {
+				return fmt.Errorf("POST /datasets/%s -> %d %s", op.Name, code, body)
+			}
+			return nil
+		}
+		if _, err := h.Dsm.CreateDataset(op.Name, nil); err != nil {
+			return fmt.Errorf("CreateDataset(%s): %w", op.Name, err)
+		}
+	case "delete":
+		if op.Via == "http" {
+			if code, body := h.Do("DELETE", "/datasets/"+op.Name, "", nil); code != 200 {
+				return fmt.Errorf("DELETE /datasets/%s -> %d %s", op.Name, code, body)
+			}
+			return nil
+		}
+		if err := h.Dsm.DeleteDataset(op.Name); err != nil {
+			return fmt.Errorf("DeleteDataset(%s): %w", op.Name, err)
+		}
+	case "rename":
+		if op.Via == "http" {
+			body, _ := json.Marshal(map[string]string{"ID": op.ID})
+			if code, resp := h.Do("PATCH", "/datasets/"+op.Name, string(body), nil); code != 200 {
+				return fmt.Errorf("PATCH /datasets/%s -> %d %s", op.Name, code, resp)
+			}
+			return nil
+		}
+		if _, err := h.Dsm.UpdateDataset(op.Name, &server.UpdateDatasetConfig{ID: op.ID}); err != nil {
+			return fmt.Errorf("UpdateDataset(%s -> %s): %w", op.Name, op.ID, err)
+		}
+	case "token":
+		if err := h.Store.StoreObject(server.JobDataIndex, op.Name, map[string]any{"id": op.Name, "token": fmt.Sprint(op.N)}); err != nil {
+			return fmt.Errorf("StoreObject: %w", err)
+		}
+	case "gc":
+		if err := h.GC.Cleandeleted(); err != nil {
+			return fmt.Errorf("Cleandeleted: %w", err)
+		}
+		if op.N == 1 {
+			_ = h.GC.GC()
+		}
+	case "restart":
+		h.Restart()
+	}
+	return nil
+}
+
 func (g *gm) applyBatch(op Op) {
 	g.record(op)
-	switch op.Via {
-	case "http":
-		code, body := g.h.PostBatch(op.DS, op.Ents, nil)
-		if code != 200 {
-			g.fail("POST batch rejected: %d %s", code, body)
-		}
-	default:
-		if err := g.h.StoreBatch(op.DS, op.Ents, op.Via); err != nil {
-			g.fail("StoreEntities failed: %v", err)
+	if g.h != nil {
+		if err := execOp(g.h, op); err != nil {
+			g.fail("%v", err)
 		}
 	}
 	g.classifyBatch(op.DS, op.Ents)
@@ -127,14 +226,10 @@ func (g *gm) applyBatch(op Op) {
 
 func (g *gm) applyTxn(op Op) {
 	g.record(op)
-	if op.Via == "http" {
-		body := g.txnPayload(op.Parts)
-		code, resp := g.h.Do("POST", "/transactions", body, nil)
-		if code != 200 {
-			g.fail("POST /transactions rejected: %d %s", code, resp)
+	if g.h != nil {
+		if err := execOp(g.h, op); err != nil {
+			g.fail("%v", err)
 		}
-	} else if err := g.h.Txn(op.Parts, op.Ctx); err != nil {
-		g.fail("ExecuteTransaction failed: %v", err)
 	}
 	for _, ds := range kit.SortedKeys(op.Parts) {
 		g.classifyBatch(ds, op.Parts[ds])
@@ -204,9 +299,9 @@ func (g *gm) shapeF04(tgt, pred string, scope []string) bool {
 	return false
 }
 
-func (g *gm) txnPayload(parts map[string][]*kit.Ent) string {
+func txnPayload(prefixes []string, parts map[string][]*kit.Ent) string {
 	ctx := map[string]string{}
-	for i, p := range g.h.P {
+	for i, p := range prefixes {
 		ctx[p] = kit.PoolNS[i]
 	}
 	m := map[string]any{"@context": map[string]any{"namespaces": ctx}}
@@ -304,17 +399,18 @@ func hasNested(v any) bool {
 
 func (g *gm) applyCreate(op Op) {
 	g.record(op)
-	if op.Via == "http" {
-		if code, body := g.h.Do("POST", "/datasets/"+op.Name, "", nil); code != 200 {
-			g.fail("POST /datasets/%s -> %d %s", op.Name, code, body)
+	if g.h != nil {
+		if err := execOp(g.h, op); err != nil {
+			g.fail("%v", err)
 		}
-	} else if _, err := g.h.Dsm.CreateDataset(op.Name, nil); err != nil {
-		g.fail("CreateDataset(%s): %v", op.Name, err)
 	}
 	if g.m.EverName[op.Name] {
 		g.cls["re-create"] = true
 	}
 	g.m.Create(op.Name)
+	if g.h == nil {
+		return
+	}
 	d := g.h.Dsm.GetDataset(op.Name)
 	if d == nil {
 		g.fail("dataset %s missing right after create", op.Name)
@@ -330,16 +426,13 @@ func (g *gm) applyCreate(op Op) {
 
 func (g *gm) applyDelete(op Op) {
 	g.record(op)
-	d := g.h.Dsm.GetDataset(op.Name)
-	if d != nil {
-		g.deadIDs = append(g.deadIDs, d.InternalID)
-	}
-	if op.Via == "http" {
-		if code, body := g.h.Do("DELETE", "/datasets/"+op.Name, "", nil); code != 200 {
-			g.fail("DELETE /datasets/%s -> %d %s", op.Name, code, body)
+	if g.h != nil {
+		if d := g.h.Dsm.GetDataset(op.Name); d != nil {
+			g.deadIDs = append(g.deadIDs, d.InternalID)
 		}
-	} else if err := g.h.Dsm.DeleteDataset(op.Name); err != nil {
-		g.fail("DeleteDataset(%s): %v", op.Name, err)
+		if err := execOp(g.h, op); err != nil {
+			g.fail("%v", err)
+		}
 	}
 	md := g.m.DS[op.Name]
 	for _, other := range g.m.Names() {
@@ -370,13 +463,10 @@ func (g *gm) applyDelete(op Op) {
 
 func (g *gm) applyRename(op Op) {
 	g.record(op)
-	if op.Via == "http" {
-		body, _ := json.Marshal(map[string]string{"ID": op.ID})
-		if code, resp := g.h.Do("PATCH", "/datasets/"+op.Name, string(body), nil); code != 200 {
-			g.fail("PATCH /datasets/%s -> %d %s", op.Name, code, resp)
+	if g.h != nil {
+		if err := execOp(g.h, op); err != nil {
+			g.fail("%v", err)
 		}
-	} else if _, err := g.h.Dsm.UpdateDataset(op.Name, &server.UpdateDatasetConfig{ID: op.ID}); err != nil {
-		g.fail("UpdateDataset(%s -> %s): %v", op.Name, op.ID, err)
 	}
 	g.m.Rename(op.Name, op.ID)
 	for _, byT := range g.refHist {
@@ -392,11 +482,11 @@ func (g *gm) applyRename(op Op) {
 
 func (g *gm) applyGC(op Op) {
 	g.record(op)
-	if err := g.h.GC.Cleandeleted(); err != nil {
-		g.fail("Cleandeleted: %v", err)
+	if g.h == nil {
+		return
 	}
-	if op.N == 1 {
-		_ = g.h.GC.GC()
+	if err := execOp(g.h, op); err != nil {
+		g.fail("%v", err)
 	}
 	if len(g.deadIDs) > 0 {
 		g.cls["gc-after-delete"] = true
@@ -406,8 +496,41 @@ func (g *gm) applyGC(op Op) {
 
 func (g *gm) applyRestart(op Op) {
 	g.record(op)
-	g.h.Restart()
+	if g.h != nil {
+		g.h.Restart()
+	}
 	g.cls["restart"] = true
+}
+
+// applyOp dispatches a recorded op (used by replays and the crash rig).
+func (g *gm) applyOp(op Op) {
+	switch op.K {
+	case "batch":
+		g.applyBatch(op)
+	case "txn":
+		g.applyTxn(op)
+	case "create":
+		g.applyCreate(op)
+	case "delete":
+		g.applyDelete(op)
+	case "rename":
+		g.applyRename(op)
+	case "gc":
+		g.applyGC(op)
+	case "restart":
+		g.applyRestart(op)
+	case "token":
+		g.record(op)
+		if g.h != nil {
+			if err := execOp(g.h, op); err != nil {
+				g.fail("%v", err)
+			}
+		}
+		if g.tokens == nil {
+			g.tokens = map[string]int{}
+		}
+		g.tokens[op.Name] = op.N
+	}
 }
 
 // checkNoKeysOfDeadDatasets scans the five data index families through the raw
@@ -463,6 +586,9 @@ func (g *gm) genBatchOp() Op {
 	max := 4
 	if rapid.IntRange(0, 9).Draw(t, "big") == 0 {
 		max = 14
+		if g.maxBatch > 0 {
+			max = g.maxBatch
+		}
 	}
 	n := rapid.IntRange(1, max).Draw(t, "n")
 	var ents []*kit.Ent
